@@ -24,6 +24,9 @@ type c18Prog struct {
 	// SharedFirst, when set, is passed as the first reader before the program's own files; its start node jumps to the
 	// program's first node
 	SharedFirst string `json:"shared_first,omitempty"`
+	// Trailer is appended to the program's last file: text after the last node that leaves the lexer inside an indented
+	// block, or makes the file invalid (then the program is refused, alone and concurrently alike)
+	Trailer string `json:"trailer,omitempty"`
 }
 
 type c18Case struct {
@@ -33,6 +36,9 @@ type c18Case struct {
 
 func c18Run(p c18Prog) (c09Run, error) {
 	srcs := renderCanonical(p.Script)
+	if p.Trailer != "" {
+		srcs[len(srcs)-1] += p.Trailer
+	}
 	if p.SharedFirst != "" {
 		// a library file shared byte for byte by several programs, followed by the program's own files
 		srcs = append([]string{p.SharedFirst}, srcs...)
@@ -200,21 +206,33 @@ func TestC18Child(t *testing.T) {
 		return
 	}
 	var rounds [][]c09Run
+	var roundErrs [][]error
 	for r := 0; r < max(1, c.Rounds); r++ {
 		runs, errs := c18Concurrent(c)
 		for i, e := range errs {
-			if e != nil {
+			if e != nil && strings.HasPrefix(e.Error(), "panic: ") {
 				fmt.Printf("C18RESULT fail program %d failed when run concurrently (round %d): %v\n", i, r, e)
 				return
 			}
 		}
 		rounds = append(rounds, runs)
+		roundErrs = append(roundErrs, errs)
 	}
 	for i, p := range c.Programs {
 		alone, err := c18Run(p)
+		for r := range rounds {
+			// a program that is refused is refused alone and concurrently alike
+			if ce := roundErrs[r][i]; (ce == nil) != (err == nil) || (ce != nil && ce.Error() != err.Error()) {
+				fmt.Printf("C18RESULT fail program %d: creating its runner alone gives the error %v, concurrently with %d others (round %d) the error %v\n", i, err, len(c.Programs)-1, r, ce)
+				return
+			}
+		}
 		if err != nil {
-			fmt.Printf("C18RESULT fail program %d failed when run alone: %v\n", i, err)
-			return
+			if p.Trailer == "" {
+				fmt.Printf("C18RESULT fail program %d failed when run alone: %v\n", i, err)
+				return
+			}
+			continue
 		}
 		for r, runs := range rounds {
 			if p.Seed == "" {
@@ -321,7 +339,11 @@ var c18Concurrently = Register(Prop[c18Case]{
 			if rapid.IntRange(0, 3).Draw(t, "emptyseed") == 0 {
 				seed = ""
 			}
-			c.Programs = append(c.Programs, c18Prog{flowCase: f, Seed: seed})
+			prog := c18Prog{flowCase: f, Seed: seed}
+			if rapid.IntRange(0, 3).Draw(t, "trailer") == 0 {
+				prog.Trailer = rapid.SampledFrom(lexerTrailers).Draw(t, "tr")
+			}
+			c.Programs = append(c.Programs, prog)
 		}
 		c.Rounds = rapid.IntRange(1, 3).Draw(t, "rounds")
 		if rapid.IntRange(0, 2).Draw(t, "shared") == 0 {
